@@ -555,6 +555,9 @@ func init() {
 			e.crcSeq++
 			t := e.newVar(fmt.Sprintf("crc%d", e.crcSeq), BV(32))
 			e.crcMemo[key] = t
+			// assumption (listed in the evidence): the CRC of a packet is not 0x00000000; a
+			// true zero CRC (probability 2^-32) would be indistinguishable from "no checksum"
+			e.addPC(e.ts.Not(e.ts.Eq(t, e.ts.BVConst(32, 0))))
 			// Ackermann congruence with earlier applications on buffers of the same length
 			var cur []*Term
 			for i := 0; i < sl.len; i++ {
